@@ -122,6 +122,7 @@ def decDev (s : String) : Option DevResp :=
   match s.splitOn ":" with
   | ["ok"] => some .ok
   | ["retry"] => some .retry
+  | ["retry", _] => some .retry
   | ["wait"] => some .wait
   | ["fail", f] => (decFailure f).map .fail
   | _ => none
